@@ -304,6 +304,7 @@ CLASS_NAMES = {
     "K02g": "local_read_as_operand_then_assigned_by_later_operand_in_native_code",
     "K02h": "stack_overflow_diagnostic_prints_instruction_listing",
     "K02i": "local_read_as_operand_then_moved_by_later_operand_in_native_code",
+    "K02j": "panic_inside_native_frame_aborts_instead_of_unwinding",
 }
 CLASS_ALIASES = {"K02a": ("global_defined_and_read_in_one_unit_assigned_later",)}   # K06a: the same defect seen by C06
 IDX_INLINE_RECURSIVE = SWITCH_NAMES.index("STEEL_INLINE_RECURSIVE")
@@ -581,6 +582,13 @@ def process(ctx, batch, configs, values, stats, known, recs=None):
             off = [n for n in names if n[IDX_JIT] == "1"]     # bit set = STEEL_JIT=false
             on = [n for n in names if n[IDX_JIT] == "0"]
             jit_split = bool(off and on) and first_difference(recs, i, j + 1, off) is None
+            if attributed is None and "K02j" in known and jit_split and off:
+                r_off = recs[off[0]][i][j] if recs[off[0]][i] else None
+                if r_off is not None and r_off["res"][0] == "panic" and \
+                        all((recs[n][i][j] if recs[n][i] else None) is not None and recs[n][i][j]["res"][0] in ("crash", "panic") for n in on):
+                    # the engine panics in every configuration (that is C07's subject); under the interpreter the
+                    # host can catch the unwind, inside a native frame the panic cannot unwind and the process aborts
+                    attributed = "K02j"
             if attributed is None and "K02h" in known and only_dump_differs(ra, rb):
                 attributed = "K02h"
             if attributed is None and "K02f" in known and assigned_parameter_called(pieces[: j + 1]) and \
@@ -773,16 +781,17 @@ def run(ctx):
              "abd_samples": [], "spec_timeouts": 0, "model_compared": 0, "model_vs_real": 0, "model_samples": [],
              "frag_programs": 0, "frag_with_inlining": 0, "model_inliner_changes_value": 0, "model_histories": 0,
              "model_histories_in_guard": 0, "features": {}}
-    # open findings: listed in KNOWN_FINDINGS.txt (matched by id or by class name), or - until the coordinator has
-    # listed them - written up by this check under findings/C02-K02*.txt
+    # open findings: the lines of KNOWN_FINDINGS.txt for this property (matched by id or by class name)
     known = {}
     for k in ctx.load_known():
         for kid, cname in CLASS_NAMES.items():
             if k.get("id") == kid or k.get("class") in (cname,) + CLASS_ALIASES.get(kid, ()):
                 known[kid] = k["text"].split(" ", 3)[-1]
     listed = set(known)
-    for kid, text in own_findings().items():
-        known.setdefault(kid, text)
+    if os.environ.get("C02_ASSUME_LISTED"):
+        # development aid only: behave as if the findings written up under findings/C02-K02*.txt were listed
+        for kid, text in own_findings().items():
+            known.setdefault(kid, text)
     rc, tout = C.sh(["python3", os.path.join(C.VERIF, "translate", "c02_switches.py")], timeout=120)
     translator_ok = rc == 0
     ctx.log("translator: rc=%d %d switches" % (rc, tout.count("switch ")))
